@@ -395,6 +395,38 @@ pub proof fn mn_sub5(z: Seq<u64>, s: Seq<u64>, r: Seq<u64>, s4n: int, o0: int, o
     assert(rr - x == mn_p320() * m);
     assert(m == 0) by(nonlinear_arith) requires -mn_p320() < mn_p320() * m < mn_p320();
 }
+// ---- digit-wise form of a 256-bit subtraction result (schoolbook borrows). The value-level contract of u256_sub is one equation with
+// coefficients 2^64..2^192 over twelve limbs; when an obligation is false the solver has to find limbs satisfying it, and its integer
+// search (branch/cut) on that single equation is what exhausts the resource limit. These four small rows make the search immediate. ----
+pub open spec fn mn_bw(a: int, b: int, c: int) -> int { if a - b - c < 0 { 1int } else { 0int } }
+pub open spec fn mn_sub_dig(a: Seq<u64>, b: Seq<u64>, r: Seq<u64>) -> bool {
+    let b0 = mn_bw(a[0] as int, b[0] as int, 0);
+    let b1 = mn_bw(a[1] as int, b[1] as int, b0);
+    let b2 = mn_bw(a[2] as int, b[2] as int, b1);
+    r[0] as int == a[0] as int - b[0] as int + 0x1_0000_0000_0000_0000int * b0
+    && r[1] as int == a[1] as int - b[1] as int - b0 + 0x1_0000_0000_0000_0000int * b1
+    && r[2] as int == a[2] as int - b[2] as int - b1 + 0x1_0000_0000_0000_0000int * b2
+    && (r[3] as int == a[3] as int - b[3] as int - b2 || r[3] as int == a[3] as int - b[3] as int - b2 + 0x1_0000_0000_0000_0000int)
+}
+pub proof fn mn_sub_digits(a: Seq<u64>, b: Seq<u64>, r: Seq<u64>)
+    requires a.len() == 4, b.len() == 4, r.len() == 4,
+        val4(r) - val4(a) + val4(b) == 0 || val4(r) - val4(a) + val4(b) == r256(),
+    ensures mn_sub_dig(a, b, r)
+{
+    let b0 = mn_bw(a[0] as int, b[0] as int, 0);
+    let b1 = mn_bw(a[1] as int, b[1] as int, b0);
+    let b2 = mn_bw(a[2] as int, b[2] as int, b1);
+    let b3 = mn_bw(a[3] as int, b[3] as int, b2);
+    let r0 = (a[0] as int - b[0] as int + 0x1_0000_0000_0000_0000int * b0) as u64;
+    let r1 = (a[1] as int - b[1] as int - b0 + 0x1_0000_0000_0000_0000int * b1) as u64;
+    let r2 = (a[2] as int - b[2] as int - b1 + 0x1_0000_0000_0000_0000int * b2) as u64;
+    let r3 = (a[3] as int - b[3] as int - b2 + 0x1_0000_0000_0000_0000int * b3) as u64;
+    let rp = seq![r0, r1, r2, r3];
+    assert(val4(rp) - b3 * r256() == val4(a) - val4(b));
+    lemma_val4_bounds(rp); lemma_val4_bounds(r);
+    assert(val4(rp) == val4(r));
+    lemma_val4_inj(r, rp);
+}
 // ---- mod_n_from_hash ----
 pub open spec fn mn_p128() -> int { 0x1_0000_0000_0000_0000int * 0x1_0000_0000_0000_0000int }
 pub proof fn mn_be_val_concat(s: Seq<u8>, t: Seq<u8>)
@@ -486,6 +518,153 @@ pub proof fn mn_sub4(zlo: int, z4: int, s: Seq<u64>, h: int, bo: int, rr: int)
     assert(bo * r == r * bo) by(nonlinear_arith);
     assert(h - rr == r * m);
     assert(m == 0) by(nonlinear_arith) requires -r < r * m < r;
+}
+//@section spec local
+// ---- mod_n_from_hash: stage lemmas. Their requires/ensures are linear in the limbs and in the opaque product mn_qd(q') = q' * (N - 1),
+// so that the verification condition of the exec function contains no product of variables besides the ones in the contracts of u256_mul ----
+#[verifier::opaque]
+pub open spec fn mn_qd(q: int) -> int { q * (N9() - 1) }
+pub open spec fn mn_lo4(a: Seq<u64>) -> int { a[0] as int + 0x1_0000_0000_0000_0000int * (a[1] as int + 0x1_0000_0000_0000_0000int * (a[2] as int + 0x1_0000_0000_0000_0000int * (a[3] as int))) }
+// the linear facts about the constants that the body of mod_n_from_hash needs
+proof fn mn_fh_lin()
+    ensures val4(SM9_ONE@) == 1, val4(SM9_N_MINUS_ONE@) == N9() - 1, 1 < N9(), N9() < r256(),
+{
+    mn_consts(); lemma_params9();
+}
+// stage 1: limbs 5,6 of zt * 2^256 + zt * mu' (zt = top 128 bits of z) are the quotient estimate q'; z - q' * (N-1) lies in [0, 2(N-1)) and below 2^256.
+// The carry out of z[4] + c1 is not an argument: it is determined by z[4] and c1.
+proof fn mn_fh_quot(z: Seq<u64>, z1: Seq<u64>, ra: Seq<u64>, rn: Seq<u64>, c1: int, c2: int)
+    requires z.len() == 5, z1.len() == 4, ra.len() == 8, rn.len() == 8,
+        z1[0] == z[3], z1[1] == z[4], z1[2] == 0, z1[3] == 0,
+        val8(ra) == val4(z1) * val4(SM9_U256_N_MINUS_ONE_BARRETT_MU@),
+        0 <= c1 <= 1, 0 <= c2 <= 1,
+        rn[0] == ra[0], rn[1] == ra[1], rn[2] == ra[2], rn[3] == ra[3],
+        rn[4] as int + c1 * 0x1_0000_0000_0000_0000int == ra[4] as int + z[3] as int,
+        rn[5] as int + c2 * 0x1_0000_0000_0000_0000int == ra[5] as int + (if z[4] as int + c1 >= 0x1_0000_0000_0000_0000int { z[4] as int + c1 - 0x1_0000_0000_0000_0000int } else { z[4] as int + c1 }),
+        rn[6] as int == c2 + (if z[4] as int + c1 >= 0x1_0000_0000_0000_0000int { 1int } else { 0int }),
+    ensures
+        0 <= val5(z) - mn_qd(rn[5] as int + 0x1_0000_0000_0000_0000int * rn[6] as int) < 2 * (N9() - 1),
+        val5(z) - mn_qd(rn[5] as int + 0x1_0000_0000_0000_0000int * rn[6] as int) < r256(),
+{
+    mn_consts(); lemma_params9();
+    let z3 = z[3] as int;
+    let z4 = z[4] as int;
+    let mul = val4(SM9_U256_N_MINUS_ONE_BARRETT_MU@);
+    let ct: int = if z4 + c1 >= 0x1_0000_0000_0000_0000int { 1 } else { 0 };
+    let t = z4 + c1 - ct * 0x1_0000_0000_0000_0000int;
+    let zt = z3 + 0x1_0000_0000_0000_0000int * z4;
+    let zz = val5(z);
+    let d = N9() - 1;
+    let qp = rn[5] as int + 0x1_0000_0000_0000_0000int * rn[6] as int;
+    assert(val4(z1) == zt);
+    mn_hash_mu(ra, rn, z3, z4, mul, c1, ct, c2, t);
+    let mu = r256() + mul;
+    assert(zz == mn_lo3(z) + mn_p192() * zt && 0 <= mn_lo3(z) < mn_p192()) by {
+        assert(mn_p192() * zt == 0x1_0000_0000_0000_0000int * (0x1_0000_0000_0000_0000int * (0x1_0000_0000_0000_0000int * zt))) by(nonlinear_arith);
+    }
+    assert(zt * mn_p192() == mn_p192() * zt && qp * mn_p320() == mn_p320() * qp) by(nonlinear_arith);
+    assert(0 <= zt < mn_p128());
+    mn_hash_quot(zz, zt, mu, qp, d);
+    assert(4 * mn_p192() + N9() - 1 < r256() && 4 * mn_p192() < N9() - 1) by(compute);
+    reveal(mn_qd);
+}
+// stage 2: r = q' * (N-1) (8 limbs); the 256-bit subtraction z[0..4] - r[0..4] is the whole difference z - q' * (N-1)
+proof fn mn_fh_sub(z: Seq<u64>, qp: int, rb: Seq<u64>, hv: int)
+    requires z.len() == 5, rb.len() == 8,
+        val8(rb) == qp * val4(SM9_N_MINUS_ONE@),
+        0 <= hv < r256(),
+        hv - (mn_lo4(z) - mn_lo4(rb)) == 0 || hv - (mn_lo4(z) - mn_lo4(rb)) == r256(),
+        0 <= val5(z) - mn_qd(qp) < r256(),
+    ensures hv == val5(z) - mn_qd(qp)
+{
+    mn_consts();
+    reveal(mn_qd);
+    let zlo = mn_lo4(z);
+    let x = z[4] as int;
+    assert(r256() * x == 0x1_0000_0000_0000_0000int * (0x1_0000_0000_0000_0000int * (0x1_0000_0000_0000_0000int * (0x1_0000_0000_0000_0000int * x)))) by(nonlinear_arith);
+    assert(val5(z) == zlo + r256() * x);
+    assert(val4(rb.subrange(0, 4)) == mn_lo4(rb));
+    let bo: int = hv - (zlo - mn_lo4(rb));
+    let bi: int = if bo == 0 { 0 } else { 1 };
+    assert(bi * r256() == bo) by(nonlinear_arith) requires (bi == 0 && bo == 0) || (bi == 1 && bo == r256());
+    lemma_val4_bounds(rb.subrange(0, 4));
+    assert(0 <= zlo < r256()) by { lemma_val4_bounds(z.subrange(0, 4)); assert(val4(z.subrange(0, 4)) == zlo); }
+    mn_sub4(zlo, x, rb, hv, bi, val5(z) - mn_qd(qp));
+}
+// stage 3: one conditional subtraction of N-1 brings z - q' * (N-1) into [0, N-1): it is z mod (N-1); adding 1 stays below N
+proof fn mn_fh_final(zz: int, qp: int, h0v: int, hv: int)
+    requires h0v == zz - mn_qd(qp), 0 <= h0v < 2 * (N9() - 1), 0 <= hv < r256(),
+        h0v >= N9() - 1 ==> (hv == h0v - (N9() - 1) || hv == h0v - (N9() - 1) + r256()),
+        h0v < N9() - 1 ==> hv == h0v,
+    ensures hv == zz % (N9() - 1), 0 <= hv < N9() - 1, (hv + 1) % N9() == hv + 1,
+{
+    lemma_params9();
+    reveal(mn_qd);
+    let d = N9() - 1;
+    let e: int = if h0v >= d { 1 } else { 0 };
+    assert(d < r256() && r256() < 2 * d && d > 0) by(compute);
+    assert(hv == h0v - e * d);
+    assert(0 <= hv < d);
+    assert(zz == hv + (qp + e) * d) by(nonlinear_arith) requires hv == zz - qp * d - e * d;
+    mn_mod_add_mult(hv, qp + e, d);
+    mn_small_mod(hv, d);
+    mn_small_mod(hv + 1, N9());
+}
+// ---- mod_n_mul: stage lemmas (same layout as for mod_n_from_hash: the body of the exec function only sees linear facts) ----
+// q' = limbs 5..8 of floor(z / 2^192) * mu is the quotient estimate (its fifth limb h[9] is zero); s = q' * N; z - s lies in [0, 2N) and is congruent to a * b
+proof fn mn_mm_quot(a: Seq<u64>, b: Seq<u64>, z: Seq<u64>, z1: Seq<u64>, h: Seq<u64>, h1: Seq<u64>, s: Seq<u64>)
+    requires a.len() == 4, b.len() == 4, z.len() == 8, z1.len() == 5, h.len() == 10, h1.len() == 4, s.len() == 8,
+        val4(a) < N9(), val4(b) < N9(),
+        val8(z) == val4(a) * val4(b),
+        z1[0] == z[3], z1[1] == z[4], z1[2] == z[5], z1[3] == z[6], z1[4] == z[7],
+        val10(h) == val5(z1) * val5(SM9_N_BARRETT_MU@),
+        h1[0] == h[5], h1[1] == h[6], h1[2] == h[7], h1[3] == h[8],
+        val8(s) == val4(h1) * val4(SM9_N@),
+    ensures h[9] == 0, 0 <= val8(z) - val8(s) < 2 * N9(),
+        (val8(z) - val8(s)) % N9() == (val4(a) * val4(b)) % N9(),
+        val4(SM9_N@) == N9(), 0 < N9(), N9() < r256(), r256() < 2 * N9(), 2 * r256() < mn_p320(),
+{
+    mn_consts(); lemma_params9();
+    lemma_val4_bounds(a); lemma_val4_bounds(b); lemma_val4_bounds(h1);
+    let n = N9();
+    let mu = val5(SM9_N_BARRETT_MU@);
+    let av = val4(a); let bv = val4(b); let zz = val8(z);
+    let qp = mn_hi5(h);
+    assert(zz < n * n) by(nonlinear_arith) requires zz == av * bv, 0 <= av < n, 0 <= bv < n;
+    assert(zz >= 0) by(nonlinear_arith) requires zz == av * bv, 0 <= av, 0 <= bv;
+    mn_split8(z);
+    assert(z1 =~= z.subrange(3, 8));
+    mn_split10(h);
+    assert(val5(z1) * mn_p192() == mn_p192() * val5(z1) && qp * mn_p320() == mn_p320() * qp) by(nonlinear_arith);
+    mn_mul_quot(zz, val5(z1), mu, qp, n);
+    // q' < N < 2^256: the fifth limb of the quotient estimate is zero
+    assert(qp == val4(h1) + r256() * h[9] as int) by {
+        let x = h[9] as int;
+        assert(r256() * x == 0x1_0000_0000_0000_0000int * (0x1_0000_0000_0000_0000int * (0x1_0000_0000_0000_0000int * (0x1_0000_0000_0000_0000int * x)))) by(nonlinear_arith);
+    }
+    let h9 = h[9] as int;
+    assert(h9 == 0) by(nonlinear_arith) requires r256() * h9 < r256(), r256() > 0, h9 >= 0;
+    assert(val8(s) == qp * n);
+    let rr = zz - val8(s);
+    assert(rr + qp * n == zz);
+    mn_mod_add_mult(rr, qp, n);
+    assert(mn_p320() > 2 * r256()) by(compute);
+}
+// the conditional final subtraction: r is (z - s) mod N
+proof fn mn_mm_final(r0v: int, rv: int, s4: int, rr: int, took: bool)
+    requires r0v + r256() * s4 == rr, 0 <= s4, 0 <= rr < 2 * N9(), 0 <= r0v < r256(), 0 <= rv < r256(),
+        took == (s4 > 0 || r0v >= N9()),
+        took ==> (rv == r0v - N9() || rv == r0v - N9() + r256()),
+        !took ==> rv == r0v,
+    ensures rv == rr % N9(), 0 <= rv < N9(),
+{
+    lemma_params9();
+    let n = N9();
+    mn_final_sub(r0v, rv, s4, rr, n, took);
+    let e: int = if took { 1 } else { 0 };
+    assert(rr == rv + e * n);
+    mn_mod_add_mult(rv, e, n);
+    mn_small_mod(rv, n);
 }
 //@section code gm-sm9/src/fields.rs
 fn mod_n_add(a: &U256, b: &U256) -> (r: U256)
@@ -669,32 +848,10 @@ fn mod_n_mul(a: &U256, b: &U256) -> (r: U256)
     
     let h1: [u64; 4] = [h[5], h[6], h[7], h[8]];
     let mut s = u256_mul(&h1, &SM9_N);
-    let ghost av = val4(a@);
-    let ghost bv = val4(b@);
-    let ghost zz = val8(z@);
-    let ghost qp = mn_hi5(h@);
     let ghost s0 = s@;
     proof {
-        mn_consts(); lemma_params9();
-        lemma_val4_bounds(a@); lemma_val4_bounds(b@); lemma_val4_bounds(h1@);
-        let n = N9();
-        let mu = val5(SM9_N_BARRETT_MU@);
-        assert(zz < n * n) by(nonlinear_arith) requires zz == av * bv, 0 <= av < n, 0 <= bv < n;
-        assert(zz >= 0) by(nonlinear_arith) requires zz == av * bv, 0 <= av, 0 <= bv;
-        mn_split8(z@);
-        assert(z1@ =~= z@.subrange(3, 8));
-        mn_split10(h@);
-        assert(val5(z1@) * mn_p192() == mn_p192() * val5(z1@) && qp * mn_p320() == mn_p320() * qp) by(nonlinear_arith);
-        mn_mul_quot(zz, val5(z1@), mu, qp, n);
-        // q' < N < 2^256: the fifth limb of the quotient estimate is zero
-        assert(qp == val4(h1@) + r256() * h[9] as int) by {
-            let x = h[9] as int;
-            assert(r256() * x == 0x1_0000_0000_0000_0000int * (0x1_0000_0000_0000_0000int * (0x1_0000_0000_0000_0000int * (0x1_0000_0000_0000_0000int * x)))) by(nonlinear_arith);
-        }
-        let h9 = h[9] as int;
-        assert(h9 == 0) by(nonlinear_arith) requires r256() * h9 < r256(), r256() > 0, h9 >= 0;
+        mn_mm_quot(a@, b@, z@, z1@, h@, h1@, s0);
         assert(SM9_N[0] * h[9] == 0);
-        assert(val8(s0) == qp * n);
     }
 
     s[4] += SM9_N[0] * h[9];
@@ -729,7 +886,7 @@ fn mod_n_mul(a: &U256, b: &U256) -> (r: U256)
     let ghost w: int = if (t4 as int) < (s[4] as int) { 1 } else { 0 };
     let ghost k: int = (if overflow { 1int } else { 0 }) + w;
     s[4] = t4.wrapping_sub(s[4]);
-    let ghost rr = zz - qp * N9();
+    let ghost rr = val8(z@) - val8(s0);
     let ghost r0 = r@;
     proof {
         assert(mn_p320() > 2 * r256()) by(compute);
@@ -742,15 +899,7 @@ fn mod_n_mul(a: &U256, b: &U256) -> (r: U256)
     }
     proof {
         lemma_val4_bounds(r@);
-        let n = N9();
-        let e: int = if s[4] > 0 || val4(r0) >= n { 1 } else { 0 };
-        let s4 = s[4] as int;
-        mn_final_sub(val4(r0), val4(r@), s4, rr, n, s[4] > 0 || val4(r0) >= n);
-        assert(val4(r@) == rr - e * n);
-        assert(0 <= val4(r@) < n);
-        assert(zz == val4(r@) + (qp + e) * n) by(nonlinear_arith) requires val4(r@) == zz - qp * n - e * n;
-        mn_mod_add_mult(val4(r@), qp + e, n);
-        mn_small_mod(val4(r@), n);
+        mn_mm_final(val4(r0), val4(r@), s[4] as int, rr, s[4] > 0 || val4(r0) >= N9());
     }
     r
 }
@@ -843,7 +992,6 @@ fn mod_n_from_hash(ha: &[u8]) -> (h: U256)
         }
     }
     let ghost zz = val5(z@);
-    let ghost d = N9() - 1;
     proof {
         let b = ha@.subrange(0, 40);
         mn_be_val_40(b);
@@ -858,12 +1006,6 @@ fn mod_n_from_hash(ha: &[u8]) -> (h: U256)
     let z1 = [z[3], z[4], 0, 0];
     let mut r = u256_mul(&z1, &SM9_U256_N_MINUS_ONE_BARRETT_MU);
     let ghost ra = r@;
-    let ghost zt = z[3] as int + 0x1_0000_0000_0000_0000int * z[4] as int;
-    let ghost mul = val4(SM9_U256_N_MINUS_ONE_BARRETT_MU@);
-    proof {
-        mn_consts(); lemma_params9();
-        assert(val4(z1@) == zt);
-    }
 
     let (sum1, carry1) = r[4].overflowing_add(z[3]);
     r[4] = sum1;
@@ -873,52 +1015,31 @@ fn mod_n_from_hash(ha: &[u8]) -> (h: U256)
     r[6] = carry2 as u64 + carry_t as u64;
     let ghost qp = r[5] as int + 0x1_0000_0000_0000_0000int * r[6] as int;
     proof {
-        mn_hash_mu(ra, r@, z[3] as int, z[4] as int, mul, if carry1 { 1int } else { 0 }, if carry_t { 1int } else { 0 }, if carry2 { 1int } else { 0 }, t as int);
-        let mu = r256() + mul;
-        assert(zz == mn_lo3(z@) + mn_p192() * zt && 0 <= mn_lo3(z@) < mn_p192()) by {
-            assert(mn_p192() * zt == 0x1_0000_0000_0000_0000int * (0x1_0000_0000_0000_0000int * (0x1_0000_0000_0000_0000int * zt))) by(nonlinear_arith);
-        }
-        assert(zt * mn_p192() == mn_p192() * zt && qp * mn_p320() == mn_p320() * qp) by(nonlinear_arith);
-        assert(0 <= zt < mn_p128());
-        mn_hash_quot(zz, zt, mu, qp, d);
+        mn_fh_quot(z@, z1@, ra, r@, if carry1 { 1int } else { 0 }, if carry2 { 1int } else { 0 });
     }
 
     r = u256_mul(&[r[5], r[6], 0, 0], &SM9_N_MINUS_ONE);
     let ghost rb = r@;
-    proof {
-        assert(val8(rb) == qp * d);
-    }
     h = u256_sub(&[z[0], z[1], z[2], z[3]], &[r[0], r[1], r[2], r[3]]).0;
-    let ghost rr = zz - qp * d;
     proof {
-        assert(4 * mn_p192() + N9() - 1 < r256()) by(compute);
+        mn_fh_lin();
         lemma_val4_bounds(h@);
-        let zlo = z[0] as int + 0x1_0000_0000_0000_0000int * (z[1] as int + 0x1_0000_0000_0000_0000int * (z[2] as int + 0x1_0000_0000_0000_0000int * (z[3] as int)));
-        let x = z[4] as int;
-        assert(r256() * x == 0x1_0000_0000_0000_0000int * (0x1_0000_0000_0000_0000int * (0x1_0000_0000_0000_0000int * (0x1_0000_0000_0000_0000int * x)))) by(nonlinear_arith);
-        assert(rb.subrange(0, 4) =~= seq![r[0], r[1], r[2], r[3]]);
-        let bo: int = val4(h@) - (zlo - val4(rb.subrange(0, 4)));
-        assert(bo == 0 || bo == r256());
-        let bi: int = if bo == 0 { 0 } else { 1 };
-        assert(bi * r256() == bo) by(nonlinear_arith) requires (bi == 0 && bo == 0) || (bi == 1 && bo == r256());
-        mn_sub4(zlo, x, rb, val4(h@), bi, rr);
+        mn_sub_digits(z@.subrange(0, 4), rb.subrange(0, 4), h@);
+        mn_fh_sub(z@, qp, rb, val4(h@));
     }
     let ghost h0 = h@;
+    proof {
+        // boundary point of the comparison below: hand the limbs of h to the solver (val4 is injective), so that a wrong
+        // comparison is refuted by a concrete witness instead of a digit search
+        if val4(h0) == val4(SM9_N_MINUS_ONE@) { lemma_val4_inj(h0, SM9_N_MINUS_ONE@); }
+    }
     
     if u256_cmp(&h, &SM9_N_MINUS_ONE) >= 0 {
         h = u256_sub(&h, &SM9_N_MINUS_ONE).0;
     }
     proof {
-        lemma_val4_bounds(h@); lemma_val4_bounds(h0);
-        let e: int = if rr >= d { 1 } else { 0 };
-        assert(d < r256() && r256() < 2 * d) by(compute);
-        mn_final_sub(val4(h0), val4(h@), 0, rr, d, val4(h0) >= d);
-        assert(val4(h@) == rr - e * d);
-        assert(0 <= val4(h@) < d);
-        assert(zz == val4(h@) + (qp + e) * d) by(nonlinear_arith) requires val4(h@) == zz - qp * d - e * d;
-        mn_mod_add_mult(val4(h@), qp + e, d);
-        mn_small_mod(val4(h@), d);
-        mn_small_mod(val4(h@) + 1, N9());
+        lemma_val4_bounds(h@);
+        mn_fh_final(zz, qp, val4(h0), val4(h@));
     }
     h = mod_n_add(&h, &SM9_ONE);
     h
